@@ -155,13 +155,16 @@ impl Config {
 }
 
 pub fn toml_value_from_str(string: &str) -> toml::Value {
-    let try_parse = toml::from_str::<toml::Value>(string);
+    // `string` is a single TOML value (`true`, `"some name"`), not a whole document, so parse it
+    // as the right-hand side of a key.
+    let try_parse = toml::from_str::<Table>(&format!("value = {string}"))
+        .ok()
+        .and_then(|mut table| table.remove("value"));
 
-    // If there's an error parsing (because clap will not parse quotes, for example), we just treat what we're passed as a string:
-    if let Ok(out) = try_parse {
-        out
-    } else {
-        toml::Value::String(string.to_string())
+    match try_parse {
+        Some(out @ (Value::Boolean(_) | Value::String(_))) => out,
+        // Anything else (because clap will not parse quotes, for example) we just treat as a string:
+        _ => Value::String(string.to_string()),
     }
 }
 
